@@ -1371,7 +1371,7 @@ class NP:
             B = b if isinstance(b, SymArray) else None
             out = []
             for j, cnd in enumerate(cond.d):
-                out.append(s_ite(cnd, A.d[j] if A else a, B.d[j] if B else b))
+                out.append(s_ite(cnd, A.d[j] if A is not None else a, B.d[j] if B is not None else b))
             return SymArray(out, "f8")
         return s_ite(cond, a, b)
 
